@@ -174,6 +174,13 @@ class New(Op):
                     kw["payload"] = w.objs[v[1]]
             else:
                 kw[k] = to_impl(w, kind, k, v)
+        if kind == "bi" and op.get("shared") is not None and "contents" in kw:
+            # the caller's OWN bytearray, handed to several constructors and edited by the
+            # caller afterwards (constructors copy their arguments)
+            buf = w.shared_bytes.get(op["shared"])
+            if buf is None or bytes(buf) != kw["contents"]:
+                buf = w.shared_bytes[op["shared"]] = bytearray(kw["contents"])
+            kw["contents"] = buf
         if op.get("uuid") is not None:
             import uuid as _u
 
